@@ -5,12 +5,13 @@ MODEL = _world.MODEL
 ASSUMPTIONS = _world.ASSUMPTIONS
 RULE = ('seeded random histories of 1-25 World operations interleaved with enabling/disabling dispatching and '
         'probe events, over handler and non-handler component classes with every subset of {on_add, on_remove, '
-        'probe events} (also remapped to other method names); observed: every callback with receiver, owner '
+        'probe events} (also remapped to other method names), scripted raising callbacks in a share of the '
+        'scenarios (a postponed callback raising during the release: the later ones must stay pending); observed: every callback with receiver, owner '
         'entity and world, is_handler of every handler object and the controller-recorded owner after every '
         'operation.  Non-trivial: >= 2 operations and a non-empty get(); distinct by scenario hash.')
 TAGS = ('cb', 'ish', 'ctl', 'res')
 CLAUSES = {'unexpected-callback', 'missing-callback', 'wrong-callback', 'registered-iff-attached',
            'controller-owner', 'outcome', 'shape', 'truncated', 'hang'}
 generate, project, oracle, nontrivial, stats = _world.make(
-    'C02', TAGS, CLAUSES, dict(n_proc=(0, 1), handlers=0.85, ctrl=0.2,
+    'C02', TAGS, CLAUSES, dict(n_proc=(0, 1), handlers=0.85, ctrl=0.2, raises=0.3,
                                w=dict(addproc=0.3, rmproc=0.2, enable=3, dispatch=2, clear=0.7)))
